@@ -1,10 +1,11 @@
 """C03 — the diff is a faithful, lossless description of old versus new (DESIGN §3.C03)."""
 from __future__ import annotations
 
+import json
 import random
 
 from .. import core, pipeline as P
-from ..core import cstr, clist, cnat, cpair
+from ..core import cstr, clist, cpair
 
 ID = "C03"
 THEOREM_FILE = "Properties/C03.v"
@@ -15,30 +16,41 @@ META = {
         "(make_diff) ops are exact at every depth, every row the rulebook knows is accounted for exactly once per "
         "level, entries carry rule and key, and rows of %rewrite rules may be missing from the diff only when the "
         "whole %rewrite group of that level is unchanged at every depth (same rows, rule and key, same order where "
-        "order matters, recursively) [C03_lossless]; self-diff empty [C03_self_empty]; %ordered rows in new's "
-        "order [C03_ordered_in_new_order]; MOVED characterisation at EVERY depth: below a MOVED entry every "
-        "surviving row is MOVED, elsewhere a surviving %ordered row is MOVED iff the prefix of new up to it "
-        "deviates from old [C03_moved_all_depths, C03_moved_iff_prefix_deviates]; a %rewrite block that is shown "
-        "is shown re-entered as a whole [C03_rewrite_shown_whole]; the predicate P_C03 evaluated on real outputs "
-        "holds of the model [C03_P_holds_of_model]. "
-        "(text views) a signed-line parser parse_signed is defined in Coq; for every formatter parameter set "
-        "(indent of n>=1 blanks, block_begin/block_end/statement_end: plain, brace and RouterOS families) "
-        "parse_signed fmt (diff_lines fmt d) = Some (shape d) for every diff without UNCHANGED entries whose rows "
-        "do not start with a blank, hence formatter.diff is injective [C03_render_roundtrip, C03_render_injective]; "
-        "gen_pre_as_diff(make_pre(d)) read back by the same parser gives the stripped diff up to a permutation of "
-        "the entries of every level [C03_pre_render]. "
+        "order matters, recursively) [C03_lossless]; hence dropping the ADDED entries gives old|R and dropping the "
+        "REMOVED ones gives new|R as unordered trees with the nesting intact, on the side where no row is governed "
+        "by a %rewrite rule [C03_projections]; self-diff empty [C03_self_empty]; %ordered rows in new's order "
+        "[C03_ordered_in_new_order]; MOVED characterisation at EVERY depth: below a MOVED entry every surviving "
+        "row is MOVED, elsewhere a surviving %ordered row is MOVED iff the prefix of new up to it deviates from "
+        "old [C03_moved_all_depths, C03_moved_iff_prefix_deviates]; a %rewrite block that is shown is shown "
+        "re-entered as a whole [C03_rewrite_shown_whole]; strip_unchanged is a projection without UNCHANGED entries "
+        "[C03_strip_idem, C03_strip_no_unchanged]; the predicate P_C03 evaluated on real outputs holds of the model "
+        "[C03_P_holds_of_model]. "
+        "REFUTED (by design of base_diff, witness replayed on the real make_diff): the stricter reading 'MOVED only "
+        "if the order relative to the other surviving rows changed' -- after a removal every later row is "
+        "re-created [C03_moved_strict_reading_refuted]; the prefix characterisation above is what holds. "
+        "(text views) a signed-line parser parse_signed is defined in Coq; for every formatter parameter set with an "
+        "indent of n>=1 blanks (plain family, brace family \" {\" \"}\" \";\"/\"\", RouterOS \"/\") and every diff "
+        "without UNCHANGED entries whose rows do not start with a blank, parse_signed fmt (diff_lines fmt d) gives "
+        "back d's entries with signs and nesting, so formatter.diff is injective [C03_render_roundtrip, "
+        "C03_render_injective]; every vendor's formatter parameters (table regenerated from the source) satisfy the "
+        "guard [C03_every_vendor_formatter_ok]; gen_pre_as_diff(make_pre(d)) read back by the same parser gives d "
+        "minus UNCHANGED (= what strip_unchanged leaves) up to a permutation of the entries of every level "
+        "[C03_pre_render, C03_shown_is_stripped]; the boolean tests used on real outputs imply the relations of the "
+        "theorems [C03_tests_sound]. "
         "CORRESPONDENCE (testing, bounded by the generators): Coq compares the model's make_diff / strip_unchanged / "
         "diff_lines / pre_lines with the real make_diff, _diff_and_patch, formatter.diff of every vendor's formatter "
-        "and gen_pre_as_diff(make_pre(.)) (also after resort_diff), and evaluates P_C03 and the read-back predicates "
-        "on the real outputs. Inputs: the shared pipeline stream plus a separately seeded stream of reorderings of "
-        "%ordered/%rewrite rows (reversal, swaps with fixed points, rotations, permutations, moves, nested-only "
-        "changes, with insertions/removals, at depth 1-3)."),
+        "(3 indents) and gen_pre_as_diff(make_pre(.)) (also after resort_diff), and evaluates P_C03 and the "
+        "read-back predicates on the real outputs. Inputs: the shared pipeline stream, a separately seeded stream "
+        "of reorderings of %ordered/%rewrite rows (reversal, swaps with fixed points, rotations, permutations, moves, "
+        "nested-only changes, with insertions/removals, at depth 1-3), and diffs built directly (all five ops, "
+        "depth <= 4, delimiter-like rows)."),
     "technique": "Coq induction over annotated config trees, diffs and signed-line listings; vm_compute differential "
                  "check on real make_diff / formatter.diff / gen_pre_as_diff outputs",
     "note": "The theorems are about the Gallina model; the tie to the code is differential testing. Not modelled: "
             "%ignore_case re-keying, %multiline, vendor %diff_logic functions (out of the property's scope), colours "
             "and the show_rules comment lines of gen_pre_as_diff, resort_diff's comparison function (only the "
-            "per-level multiset of its output is checked).",
+            "per-level multiset of its output is checked). With %rewrite rows on a side the projection of that side "
+            "is characterised by C03_lossless (what may be omitted), not by C03_projections.",
 }
 
 AO = "(annot_f pm (pc_rules c) (pc_old c))"
@@ -365,14 +377,7 @@ def text_stage(ctx, outs):
                                          replay={"case": tcases[i], "impl": res_impl[i]}))
     keep = [i for i in range(len(tcases)) if i not in set(fatal)]
 
-    def olines(x):
-        return core.copt(None if x is None else clist(cstr(l) for l in x))
-
-    terms = []
-    for i in keep:
-        t, o = tcases[i], res_impl[i]
-        terms.append(cpair(cpair(cpair(cstr(t["vendor"]), cstr(t["indent"])), P.coq_diff(t["diff"])),
-                           cpair(cpair(olines(o["confirm"]), clist(cstr(l) for l in o["pre"])), olines(o.get("pre_resorted")))))
+    terms = _text_terms([tcases[i] for i in keep], [res_impl[i] for i in keep])
     res = core.run_case_files(ctx.prop, "tcase", TEXT_IMPORTS, TEXT_PREDS, terms, per_file=120, tag="text",
                               extra_defs=TEXT_DEFS)
     res = {k: [keep[j] for j in v] for k, v in res.items()}
@@ -459,7 +464,8 @@ def pipeline_stage(ctx, n: int):
     outs = core.run_impl_sharded("pipeline_runner.py", [P.impl_payload(c) for c in cases])
 
     def rep(i):
-        r = {"case": {k: cases[i][k] for k in CASE_KEYS}, "impl": outs[i]}
+        r = {"case": {k: cases[i][k] for k in CASE_KEYS}, "impl": outs[i],
+             "structured": {"rules": cases[i]["rules"], "orules": cases[i]["orules"]}}
         if cases[i].get("tags"):
             r["generator_tags"] = cases[i]["tags"]
         return r
@@ -542,6 +548,40 @@ def run(ctx):
     text_stage(ctx, outs)
 
 
+def _text_terms(tcases, res_impl):
+    def olines(x):
+        return core.copt(None if x is None else clist(cstr(l) for l in x))
+    return [cpair(cpair(cpair(cstr(t["vendor"]), cstr(t["indent"])), P.coq_diff(t["diff"])),
+                  cpair(cpair(olines(o["confirm"]), clist(cstr(l) for l in o["pre"])), olines(o.get("pre_resorted"))))
+            for t, o in zip(tcases, res_impl)]
+
+
 def replay(ctx, doc):
-    print("replay: re-run ./check C03 with VERIF_SEED=%s; case stored in the replay file" % doc.get("seed"))
-    return 1
+    """Re-run the stored failing input against the current implementation and let Coq evaluate the clauses
+    again; exit status 1 while some clause is still false on the implementation's output."""
+    r = doc["replay"]
+    case = r.get("case")
+    if not case:
+        print("replay: no concrete input stored (%s)" % doc.get("signature"))
+        return 1
+    if "diff" in case and "indent" in case:          # textual views
+        o = core.run_impl("c03_runner.py", [{k: case[k] for k in ("vendor", "indent", "diff")}])[0]
+        res = core.run_case_files(ctx.prop, "tcase", TEXT_IMPORTS, TEXT_PREDS, _text_terms([case], [o]),
+                                  tag="replay", extra_defs=TEXT_DEFS)
+    else:
+        st = r.get("structured")
+        if not st:
+            print("replay: the stored case has no structured rulebook; re-run ./check C03 with VERIF_SEED=%s" % doc.get("seed"))
+            return 1
+        c = dict(case, rules=st["rules"], orules=st["orules"])
+        o = core.run_impl("pipeline_runner.py", [P.impl_payload(c)])[0]
+        if "fatal" in o or "diff_full_err" in o:
+            print("replay: the implementation raised:", str(o.get("fatal") or o.get("diff_full_err"))[-300:])
+            return 1
+        preds = {f"holds_{k}": v for k, v in HOLDS.items()}
+        preds.update(AGREE2)
+        res = core.run_case_files(ctx.prop, "pcase", IMPORTS, preds, [slim_pcase(c, o)], tag="replay")
+    bad = sorted(k for k, v in res.items() if v)
+    print("replay %s: implementation output %s" % (doc.get("signature"), json.dumps(o)[:600]))
+    print("replay: false on the current implementation:", ", ".join(bad) if bad else "nothing (all clauses hold, model agrees)")
+    return 1 if any(k.startswith("holds_") for k in bad) else 0
